@@ -265,7 +265,7 @@ def run_check(prop, tier, master_seed, budget_s=None, workers=None, runs=None, v
     for k, hits in known_hit.items():
         total = sum(n for _, n in hits)
         print("KNOWN-FINDING: property=%s %s [sig=%s; %d occurrence(s) this run]" % (prop.id, k.text, k.glob, total))
-    min_budget = 45.0 if tier == "quick" else 180.0
+    min_budget = 30.0 if tier == "quick" else 180.0
     for gi, ((oracle, sig), items) in enumerate(unknown_groups):
         items = [it for it in items if it[2] is not None]
         if not items:
@@ -280,7 +280,7 @@ def run_check(prop, tier, master_seed, budget_s=None, workers=None, runs=None, v
             harness_errors.append("HARNESS-NONDETERMINISM: violation %s:%s of run %d did not reproduce (%s)" % (oracle, sig, idx, ek))
             continue
         before = len(json.dumps(scenario, default=repr))
-        if gi < 4:
+        if gi < (2 if tier == "quick" else 6):
             m = Minimiser(prop, target, budget_s=min_budget)
             small = m.run(scenario)
             tests = m.tests
